@@ -26,7 +26,7 @@ import pexpect
 from pexpect.exceptions import EOF, TIMEOUT
 
 PROPERTY = 'C12'
-RULE = ('Hypothesis-generated child dialogues (1-7 steps: text, payload up to 200 KB, prompt+read, sleep) x event tables '
+RULE = ('Hypothesis-generated child dialogues (1-7 steps: text, text arriving in two pieces cut inside a character, payload up to 200 KB, prompt+read, sleep) x event tables '
         '(dict|list; string|function|method responses; callbacks returning None|string|True; EOF/TIMEOUT keys) x '
         'bytes|utf-8 x withexitstatus x searchwindowsize {unset, 4000} passed through **kwargs, on real children.  Non-trivial: >= 2 events fired, or a TIMEOUT event fired '
         'mid-stream, or more than maxread (2000) bytes of output between two events.  Distinct by hash of the case.')
